@@ -149,6 +149,7 @@ func newNhAgent(eids ...string) *nhAgent {
 func (a *nhAgent) Endpoints() []bpv7.EndpointID        { return a.eids }
 func (a *nhAgent) MessageReceiver() chan agent.Message { return a.receiver }
 func (a *nhAgent) MessageSender() chan agent.Message   { return a.sender }
+
 // waitBundles waits until the agent has received at least n bundle messages (delivery through the mux is
 // asynchronous); it gives up after a generous watchdog and reports false.
 func (a *nhAgent) waitBundles(n int) bool {
